@@ -82,6 +82,16 @@ CHECKS["C16"] = (
     "DESIGN.md section 6, C16",
 )
 
+CHECKS["C17"] = (
+    "Hypothesis-generated hourly frames (gaps, duplicates, zeros, DST edges) against a cell-by-cell reference of the prepared frame",
+    "Generated-input search over on-the-hour frames of 4 days to 2 years in 12 zones, both hourly data classes, electric/gas, "
+    "with/without irradiance, NaN cells/blocks, absent rows, duplicates (also with an empty first occurrence), zeros, tiny/negative "
+    "readings, spans starting/ending on DST days: expected index by UTC arithmetic, supplied cells bit-identical, interpolated_ flags "
+    "exact in both directions, nothing left missing, caller's frame untouched.",
+    "Trusted: expected_index and the bookkeeping in vf/props/c17.py; whole-hour DST zones only.",
+    "DESIGN.md section 6, C17",
+)
+
 PENDING_REASON = "check not built yet in this session (work in progress; property-based testing applies and is planned, see DESIGN.md section 6)"
 
 
